@@ -265,6 +265,10 @@ func sliceItemType(
 			foundType = types[i]
 		} else if foundType.TypeID() != types[i].TypeID() {
 			return nil, fmt.Errorf("mismatching types in list (expected: %s, found: %s)", foundType.TypeID(), types[i].TypeID())
+		} else if err := foundType.ValidateCompatibility(types[i]); err != nil {
+			// The type ID alone does not tell objects with different properties (or lists of different
+			// items) apart; the list gets the type of its first item, so every item must fit that type.
+			return nil, fmt.Errorf("mismatching types in list (item %d does not have the type of item 0: %w)", i, err)
 		}
 	}
 	if foundType == nil {
